@@ -274,6 +274,46 @@ def xinclude_text(ctx):
                 shutil.rmtree(d, ignore_errors=True)
 
 
+def attribute_order(ctx):
+    """The attributes of an element are a SET: every order of the same attributes gives the same outcome.  Models with a
+    declared attribute next to an attribute wildcard restricted to a namespace (some attributes are admitted, some not),
+    with and without fail_on_unknown_attributes, both handlers."""
+    import dataclasses
+    import itertools
+    from typing import Dict, Optional
+
+    from xsdata.exceptions import ParserError as PE
+
+    def model(name, ns_rule):
+        return dataclasses.make_dataclass(name, [
+            ("id", Optional[int], dataclasses.field(default=None, metadata={"type": "Attribute"})),
+            ("rest", Dict[str, str], dataclasses.field(default_factory=dict, metadata={"type": "Attributes", "namespace": ns_rule}))])
+
+    attrs = ['id="7"', 'ok:a="1"', 'bad:b="2"', 'ok:c="3"', 'plain="4"']
+    xctx = XmlContext()
+    for mname, rule in (("AttrOk", "urn:ok"), ("AttrOther", "##other"), ("AttrLocal", "##local"), ("AttrAny", "##any")):
+        clazz = model(mname, rule)
+        for subset in (attrs, attrs[1:4], attrs[1:3], attrs[2:]):
+            for strict in (False, True):
+                ref = None
+                for perm in itertools.permutations(subset):
+                    text = f'<{mname} xmlns:ok="urn:ok" xmlns:bad="urn:bad" {" ".join(perm)}/>'
+                    for h in ("native", "lxml"):
+                        ctx.case(("attr-order", mname, perm, strict, h))
+                        try:
+                            cur = ("ok", XmlParser(context=xctx, handler=hb.HANDLERS[h], config=ParserConfig(fail_on_unknown_attributes=strict)).from_string(text, clazz))
+                        except PE as ex:
+                            cur = ("exc", "ParserError")
+                        except Exception as ex:  # noqa: BLE001
+                            cur = ("exc", type(ex).__name__)
+                        if ref is None:
+                            ref = (cur, text)
+                        elif cur != ref[0]:
+                            ctx.violation(f"the order of the attributes changes the outcome ({rule} attribute wildcard, fail_on_unknown_attributes={strict}, {h}): "
+                                          f"{text} gives {cur[1]!r}, {ref[1]} gives {ref[0][1]!r}", {"text": text, "other": ref[1], "handler": h})
+                            break
+
+
 def has_qualified_qname(doc) -> bool:
     """Selector part of F14: the document carries a namespace-qualified QName value or xsi:type."""
     for _n, atoms in doc["attrs"]:
@@ -310,6 +350,7 @@ def run(ctx):
     anytype_spellings(ctx)
     padded_values(ctx)
     xinclude_text(ctx)
+    attribute_order(ctx)
 
 
 def replay(ctx, doc):
